@@ -85,7 +85,8 @@ def run(ctx):
     gens = ctx.pick(
         [consts("{1,3,9}", "{0,2,5}", 2, "{4}", "{1,2}", MayClose="TRUE", MaxSteps=4),
          consts("{2,5}", "{0,3}", 3, "{2,4}", "{2}", MayClose="TRUE", MaxSteps=5)],
-        [consts("{1,3,4,9}", "{0,2,3,5}", 3, "{2,4,6}", "{1,2}", MayClose="TRUE", MaxSteps=6)])
+        [consts("{1,3,9}", "{0,2,5}", 3, "{2,4,6}", "{1,2}", MayClose="TRUE", MaxSteps=6),      # ~1e5 behaviours
+         consts("{2,5}", "{0,3}", 3, "{2,4}", "{1,2}", MayClose="TRUE", MaxSteps=7)])
     scales = ctx.pick([1, 200], [1, 4, 200, 8188])
     cases = []
     for g in gens:
